@@ -48,7 +48,9 @@ fn baseline(texts: &[String], replies: &[String], probes: &[String], quantum: us
     o.quantum = quantum;
     o.quanta = quanta.to_vec();
     o.replies = replies.iter().cloned().collect();
-    o.max_calls = 300_000;
+    // an instruction budget, not a call budget: generated programs may loop forever
+    let q = if quanta.is_empty() { quantum.max(1) } else { 1 };
+    o.max_calls = 2_000_000 / q + 6000;
     let before = term.calls;
     let end = term.line("RUN", &mut o);
     let calls = term.calls - before;
@@ -466,7 +468,7 @@ fn check_inserted_stop(t: &mut Tape, ctx: &Ctx) -> Outcome {
         let mut term = load(&texts2);
         let mut o = Opts::default();
         o.replies = g.replies.iter().cloned().collect();
-        o.max_calls = 100_000;
+        o.max_calls = 6000;
         let mut out = String::new();
         let mut cmd = "RUN".to_string();
         let mut stops = 0;
